@@ -162,6 +162,8 @@ func run(sc *Scenario, st *stats) *verr {
 	} else {
 		q.NotificationHandler = w.appNotification
 	}
+	q = mkQuery(sc.Query, q, w)
+	refused := queryRefused(sc.Query, sc.Plain)
 
 	sleepUntil := func(at time.Duration) {
 		if d := at - w.now(); d > 0 {
@@ -237,7 +239,7 @@ func run(sc *Scenario, st *stats) *verr {
 			}
 		}
 		st.deafConnect = as != nil && !as.connected && as.script.Conn == "deaf"
-		st.deafNext = nBegin == nEnd && !stopFirst && sc.attempt(nBegin).Conn == "deaf"
+		st.deafNext = nBegin == nEnd && !stopFirst && sc.attempt(nBegin).Conn == "deaf" && !queryInvalid(sc.Query) && !refused
 		if nBegin > 0 {
 			st.reconnects = nBegin - 1
 		}
@@ -274,7 +276,7 @@ func run(sc *Scenario, st *stats) *verr {
 		} else {
 			bound, earlier = sc.envelope(k), k
 		}
-		if returned && !sc.Plain && v == nil {
+		if returned && !sc.Plain && !refused && v == nil {
 			e, _ := find("ret")
 			v = newVerr("gave-up", "Subscribe of the reconnecting client returned (%s) at %v although the client was not closed and its context not cancelled (stop action due at %v); %d attempts begun, %d ended",
 				e.Note, e.At, stopAt, nBegin, nEnd)
@@ -376,6 +378,26 @@ func run(sc *Scenario, st *stats) *verr {
 	st.attempts = w.nBegin
 	st.msgs = w.nextMsg
 	w.labels(st)
+	if v == nil && refused {
+		// A Subscribe call the client documents to fail at once.
+		var call, ret event
+		ci, ri := -1, -1
+		for i, e := range w.events {
+			switch e.Kind {
+			case "sub-call":
+				call, ci = e, i
+			case "ret":
+				ret, ri = e, i
+			}
+		}
+		var between []event
+		if ci >= 0 && ri > ci {
+			between = w.events[ci+1 : ri]
+		} else if ci >= 0 {
+			between = w.events[ci+1:]
+		}
+		v = refusedClause("Subscribe", sc.Query, sc.Plain, ri >= 0, call.At, ret.At, ret.Note, between)
+	}
 	if v != nil {
 		v.msg += "\nhistory: " + w.dump()
 		return v
@@ -627,6 +649,18 @@ func (w *world) labels(st *stats) {
 	w.errLabels(st)
 	if sc.Timeout > 0 {
 		st.label("query-timeout-set")
+	}
+	if sc.Query != "" {
+		st.label("query:" + sc.Query)
+		switch {
+		case queryRefused(sc.Query, sc.Plain):
+			st.label("subscribe-refused")
+			if sc.Stop == "close" && st.phase == "after-return" {
+				st.label("close-after-refused-subscribe")
+			}
+		case queryInvalid(sc.Query):
+			st.label("every-attempt-rejects-the-query")
+		}
 	}
 	// Non-trivial: Close lands inside a backoff sleep or between connect and
 	// first message, after at least one reconnect.
